@@ -115,7 +115,7 @@ fn scenarios() -> Vec<(String, String, bool)> {
     add("hll_ksize", &["valid", "default"], true);
     add("hll_cardinality", &["valid", "empty", "p4", "p18", "default"], true);
     for f in ["hll_similarity", "hll_containment", "hll_intersection_size"] {
-        add(f, &["valid", "empty", "self", "mismatch_p", "mismatch_ksize", "default"], true);
+        add(f, &["valid", "empty", "self", "mismatch_p", "mismatch_p4", "mismatch_ksize", "default"], true);
     }
     add("hll_add_sequence", &["valid", "invalid", "invalid_force", "empty", "short", "default"], true);
     add("hll_add_hash", &["valid", "zero", "max", "default"], true);
@@ -134,9 +134,9 @@ fn scenarios() -> Vec<(String, String, bool)> {
     add("kmerminhash_add_protein", &["valid", "dna_mh", "short", "empty", "non_aa", "dayhoff", "hp"], true);
     add("kmerminhash_seq_to_hashes", &["valid", "invalid", "invalid_force", "force_zeroes", "empty", "protein", "short", "k0"], true);
     add("kmerminhash_clear", &["valid", "empty", "abund"], true);
-    add("kmerminhash_add_hash", &["valid", "zero", "max", "above_max_hash", "num_full", "abund"], true);
+    add("kmerminhash_add_hash", &["valid", "zero", "max", "above_max_hash", "num_full", "abund", "abund_overflow"], true);
     add("kmerminhash_add_hash_with_abundance", &["valid", "zero_abund", "max_abund", "no_track", "repeat"], true);
-    add("kmerminhash_add_word", &["valid", "empty", "non_acgt"], true);
+    add("kmerminhash_add_word", &["valid", "empty", "non_acgt", "abund_overflow"], true);
     add("kmerminhash_remove_hash", &["present", "absent", "empty", "abund"], true);
     add("kmerminhash_remove_many", &["valid", "absent", "empty_list", "abund"], true);
     add("kmerminhash_get_mins", &["valid", "empty"], true);
@@ -193,7 +193,7 @@ fn scenarios() -> Vec<(String, String, bool)> {
     add("nodegraph_ntables", &["valid", "default"], true);
     add("nodegraph_noccupied", &["valid", "default"], true);
     add("nodegraph_matches", &["valid", "empty_mh", "default", "zero_len_table"], true);
-    add("nodegraph_update", &["valid", "mismatch_tables", "mismatch_sizes", "default_into_valid", "valid_into_default", "self_sizes"], true);
+    add("nodegraph_update", &["valid", "mismatch_tables", "mismatch_sizes", "default_into_valid", "valid_into_default", "self_sizes", "zero_len_table"], true);
     add("nodegraph_update_mh", &["valid", "empty_mh", "default", "zero_len_table"], true);
     add("nodegraph_from_path", &["valid", "missing", "garbage", "directory", "bad_utf8"], true);
     add("nodegraph_from_buffer", &["valid", "gz", "empty", "garbage", "truncated", "zero_len_table"], true);
@@ -233,15 +233,16 @@ fn scenarios() -> Vec<(String, String, bool)> {
     add("revindex_new_with_sigs", &["valid", "empty_sigs", "with_queries", "empty_queries", "queries_threshold0_mismatch", "template_mismatch"], true);
     add("revindex_new_with_paths", &["valid", "missing", "empty_paths", "garbage", "with_queries"], true);
     add("revindex_free", &["valid", "null"], false);
-    add("revindex_len", &["valid", "empty"], true);
-    add("revindex_scaled", &["valid", "empty"], true);
-    add("revindex_signatures", &["valid", "empty"], true);
-    add("revindex_search", &["valid", "empty_sig", "no_match", "containment", "mismatch_ksize", "large_mh"], true);
+    add("revindex_len", &["valid"], true);
+    add("revindex_scaled", &["valid"], true);
+    add("revindex_signatures", &["valid"], true);
+    add("revindex_search", &["valid", "empty_sig", "no_match", "containment", "mismatch_ksize", "large_mh"], false);
     add("revindex_gather", &["valid", "empty_sig", "no_match", "mismatch_ksize", "large_mh", "threshold_big"], true);
     add("searchresult_score", &["valid"], true);
     add("searchresult_filename", &["valid"], true);
     add("searchresult_signature", &["valid"], true);
-    add("searchresult_free", &["valid", "null"], false);
+    add("searchresult_free", &["valid"], true);
+    add("searchresult_free", &["null"], false);
     v
 }
 
@@ -287,7 +288,7 @@ const SEQ_FAIL: &[&str] = &[
     "hll_merge_mismatch_ksize",
     "hll_merge_mismatch_p",
     "angular_needs_abund",
-    "count_common_upsample",
+    "count_common_num_vs_scaled",
     "load_sigs_bad_json",
     "str_from_cstr_bad_utf8",
     "first_mh_empty_sig",
@@ -345,13 +346,13 @@ fn gen(a: &Args) {
         for _ in 0..len {
             let k = r.below(100);
             let st: &str = if k < 30 {
-                r.pick(SEQ_FAIL)
+                *r.pick(SEQ_FAIL)
             } else if k < 40 {
-                r.pick(SEQ_PANIC)
+                *r.pick(SEQ_PANIC)
             } else if k < 65 {
-                r.pick(SEQ_OK)
+                *r.pick(SEQ_OK)
             } else if k < 85 {
-                r.pick(SEQ_QUERY)
+                *r.pick(SEQ_QUERY)
             } else if k < 96 {
                 "clear"
             } else {
@@ -535,7 +536,7 @@ fn prot(r: &mut Rng, n: usize) -> Vec<u8> {
     (0..n).map(|_| *r.pick(b"ACDEFGHIKLMNPQRSTVWY")).collect()
 }
 fn hashes(r: &mut Rng, n: usize) -> Vec<u64> {
-    let mut v: Vec<u64> = (0..n).map(|_| r.bits(64).max(1)).collect();
+    let mut v: Vec<u64> = (0..n).map(|_| r.next().max(1)).collect();
     v.sort();
     v.dedup();
     v
@@ -781,8 +782,8 @@ unsafe fn seq_step(name: &str) -> Option<String> {
             kmerminhash_free(x);
             kmerminhash_free(y);
         }
-        "count_common_upsample" => {
-            // a num sketch reports scaled 0: "downsampling" the scaled sketch to it is an upsample
+        "count_common_num_vs_scaled" => {
+            // a num sketch (max_hash 0) against a scaled one: the downsampling path ends in MismatchScaled
             let (x, _) = mh_pair(P { scaled: 0, num: 500, ..a }, &hs);
             let (y, _) = mh_pair(P { scaled: 4, ..a }, &hs);
             kmerminhash_count_common(y, x, true);
@@ -932,7 +933,1919 @@ fn seqchild() {
 // child: one exported function, in-contract arguments
 // ------------------------------------------------------------------------------------------------
 
-include!("c20_calls.in");
+#[derive(PartialEq)]
+enum Cmp {
+    Same,
+    Diff,
+    None,
+    Unknown,
+}
+fn c(b: bool) -> Cmp {
+    if b {
+        Cmp::Same
+    } else {
+        Cmp::Diff
+    }
+}
+/// native evaluation (a panic is an answer too); leaves the error channel clean
+fn native<T>(f: impl FnOnce() -> T) -> Option<T> {
+    let r = std::panic::catch_unwind(std::panic::AssertUnwindSafe(f)).ok();
+    unsafe { sourmash_err_clear() };
+    r
+}
+/// flatten "panicked" and "returned Err" into `None`
+fn nat_ok<T>(f: impl FnOnce() -> Result<T, SourmashError>) -> Option<T> {
+    native(f).and_then(|r| r.ok())
+}
+fn dangling<T>() -> *const T {
+    ptr::NonNull::<T>::dangling().as_ptr() as *const T
+}
+
+unsafe fn run_call(f: &str, cls: &str, r: &mut Rng) -> Cmp {
+    for fam in [call_cp, call_misc, call_hll, call_mh, call_mh_bin, call_ng, call_sig, call_zip, call_rev] {
+        if let Some(x) = fam(f, cls, r) {
+            return x;
+        }
+    }
+    Cmp::Unknown
+}
+
+// ---- compute parameters ---------------------------------------------------------------------
+unsafe fn call_cp(f: &str, cls: &str, r: &mut Rng) -> Option<Cmp> {
+    if !f.starts_with("computeparams_") {
+        return None;
+    }
+    type CP = SourmashComputeParameters;
+    let cp = computeparams_new();
+    let d = ComputeParameters::default();
+    let bools: [(&str, unsafe extern "C" fn(*const CP) -> bool, unsafe extern "C" fn(*mut CP, bool), fn(&ComputeParameters) -> bool, fn(&mut ComputeParameters, bool)); 5] = [
+        ("dayhoff", computeparams_dayhoff, computeparams_set_dayhoff, |p| p.dayhoff(), |p, v| { p.set_dayhoff(v); }),
+        ("dna", computeparams_dna, computeparams_set_dna, |p| p.dna(), |p, v| { p.set_dna(v); }),
+        ("hp", computeparams_hp, computeparams_set_hp, |p| p.hp(), |p, v| { p.set_hp(v); }),
+        ("protein", computeparams_protein, computeparams_set_protein, |p| p.protein(), |p, v| { p.set_protein(v); }),
+        ("track_abundance", computeparams_track_abundance, computeparams_set_track_abundance, |p| p.track_abundance(), |p, v| { p.set_track_abundance(v); }),
+    ];
+    let name = &f["computeparams_".len()..];
+    let mut res = Cmp::Unknown;
+    for (n, get, set, nget, nset) in bools {
+        if name == n {
+            res = match cls {
+                "default" => c(get(cp) == nget(&d)),
+                "set" => {
+                    let v = r.chance(1, 2);
+                    nset(CP::as_rust_mut(cp), v);
+                    c(get(cp) == v)
+                }
+                _ => Cmp::Unknown,
+            };
+        } else if name.strip_prefix("set_") == Some(n) {
+            let v = match cls {
+                "valid" => r.chance(1, 2),
+                "zero" => false,
+                "max" => true,
+                _ => return Some(Cmp::Unknown),
+            };
+            set(cp, v);
+            res = c(nget(CP::as_rust(cp)) == v);
+        }
+    }
+    let val = |r: &mut Rng| match cls {
+        "valid" => r.bits(64),
+        "zero" => 0,
+        _ => u64::MAX,
+    };
+    match name {
+        "new" => res = c(!cp.is_null() && CP::as_rust(cp).ksizes() == d.ksizes() && CP::as_rust(cp).seed() == d.seed() && CP::as_rust(cp).scaled() == d.scaled() && CP::as_rust(cp).num_hashes() == d.num_hashes() && CP::as_rust(cp).dna() == d.dna()),
+        "free" => {
+            if cls == "null" {
+                computeparams_free(ptr::null_mut());
+            }
+            res = Cmp::None
+        }
+        "num_hashes" | "scaled" | "seed" => {
+            if cls == "set" {
+                let v = r.bits(64);
+                CP::as_rust_mut(cp).set_num_hashes(v as u32);
+                CP::as_rust_mut(cp).set_scaled(v);
+                CP::as_rust_mut(cp).set_seed(v);
+            }
+            let n = CP::as_rust(cp);
+            res = match name {
+                "num_hashes" => c(computeparams_num_hashes(cp) == n.num_hashes()),
+                "scaled" => c(computeparams_scaled(cp) == n.scaled()),
+                _ => c(computeparams_seed(cp) == n.seed()),
+            };
+        }
+        "set_num_hashes" => {
+            let v = val(r) as u32;
+            computeparams_set_num_hashes(cp, v);
+            res = c(CP::as_rust(cp).num_hashes() == v);
+        }
+        "set_scaled" => {
+            let v = val(r);
+            computeparams_set_scaled(cp, v);
+            res = c(CP::as_rust(cp).scaled() == v);
+        }
+        "set_seed" => {
+            let v = val(r);
+            computeparams_set_seed(cp, v);
+            res = c(CP::as_rust(cp).seed() == v);
+        }
+        "ksizes" | "ksizes_free" => {
+            if cls == "empty" {
+                CP::as_rust_mut(cp).set_ksizes(vec![]);
+            }
+            let mut n = 7usize;
+            let p = if cls == "null" { ptr::null() } else { computeparams_ksizes(cp, &mut n) };
+            if name == "ksizes" {
+                let want = CP::as_rust(cp).ksizes().clone();
+                let got = std::slice::from_raw_parts(p, n).to_vec();
+                res = c(got == want);
+                computeparams_ksizes_free(p as *mut u32, n);
+            } else {
+                computeparams_ksizes_free(p as *mut u32, if p.is_null() { 0 } else { n });
+                res = Cmp::None;
+            }
+        }
+        "set_ksizes" => {
+            let ks: Vec<u32> = match cls {
+                "valid" => (0..r.range(1, 6)).map(|_| r.range(1, 100) as u32).collect(),
+                "empty" => vec![],
+                "zero_k" => vec![0, 0],
+                _ => return Some(Cmp::Unknown),
+            };
+            let p = if ks.is_empty() { dangling::<u32>() } else { ks.as_ptr() };
+            computeparams_set_ksizes(cp, p, ks.len());
+            res = c(CP::as_rust(cp).ksizes() == &ks);
+        }
+        _ => {}
+    }
+    computeparams_free(cp);
+    Some(res)
+}
+
+// ---- hashing helpers, error channel, strings -------------------------------------------------
+unsafe fn fail_once() {
+    let cdn = cs("ACGTA");
+    sourmash_translate_codon(cdn.as_ptr());
+}
+unsafe fn call_misc(f: &str, cls: &str, r: &mut Rng) -> Option<Cmp> {
+    use sourmash::encodings::{aa_to_dayhoff, aa_to_hp, translate_codon};
+    Some(match f {
+        "hash_murmur" => {
+            let k: Vec<u8> = match cls {
+                "valid" => dna(r, 21),
+                "empty" => vec![],
+                "non_acgt" => b"NNNN#xyz".to_vec(),
+                _ => return Some(Cmp::Unknown),
+            };
+            let seed = r.bits(64);
+            let ck = csb(&k);
+            c(hash_murmur(ck.as_ptr(), seed) == sourmash::_hash_murmur(&k, seed))
+        }
+        "sourmash_aa_to_dayhoff" | "sourmash_aa_to_hp" => {
+            let aa: u8 = match cls {
+                "valid" => *r.pick(b"ACDEFGHIKLMNPQRSTVWY"),
+                "unknown" => *r.pick(&[b'#', 0u8, 0x80, 0xff, b'z']),
+                _ => return Some(Cmp::Unknown),
+            };
+            if f.ends_with("dayhoff") {
+                let want = native(|| aa_to_dayhoff(aa));
+                let got = sourmash_aa_to_dayhoff(aa as c_char);
+                c(want.map(|w| w as c_char == got).unwrap_or(got == 0))
+            } else {
+                let want = native(|| aa_to_hp(aa));
+                let got = sourmash_aa_to_hp(aa as c_char);
+                c(want.map(|w| w as c_char == got).unwrap_or(got == 0))
+            }
+        }
+        "sourmash_translate_codon" => {
+            let k: Vec<u8> = match cls {
+                "valid" => dna(r, 3),
+                "len1" => dna(r, 1),
+                "len2" => dna(r, 2),
+                "unknown3" => b"N#N".to_vec(),
+                "empty" => vec![],
+                "len5" => dna(r, 5),
+                _ => return Some(Cmp::Unknown),
+            };
+            let want = nat_ok(|| translate_codon(&k));
+            let ck = csb(&k);
+            let got = sourmash_translate_codon(ck.as_ptr());
+            c(got == want.map(|w| w as c_char).unwrap_or(0))
+        }
+        "sourmash_init" => {
+            sourmash_init();
+            if cls == "twice" {
+                sourmash_init();
+            }
+            Cmp::None
+        }
+        "sourmash_err_clear" => {
+            if cls == "after_error" {
+                fail_once();
+            }
+            sourmash_err_clear();
+            Cmp::None
+        }
+        "sourmash_err_get_last_code" => {
+            let want = if cls == "after_error" {
+                fail_once();
+                SourmashErrorCode::from_error(&SourmashError::InvalidCodonLength { message: "5".into() }) as u32
+            } else {
+                0
+            };
+            c(last_code() == want && last_code() == want)
+        }
+        "sourmash_err_get_last_message" => {
+            let want = if cls == "after_error" {
+                fail_once();
+                SourmashError::InvalidCodonLength { message: "5".into() }.to_string()
+            } else {
+                String::new()
+            };
+            let m = sourmash_err_get_last_message();
+            let zero_ok = cls == "after_error" || (m.data.is_null() && m.len == 0 && !m.owned);
+            c(str_take(m) == want && zero_ok)
+        }
+        "sourmash_err_get_backtrace" => {
+            if cls == "after_error" {
+                fail_once();
+            }
+            c(str_is_zero(sourmash_err_get_backtrace()))
+        }
+        "sourmash_str_from_cstr" => {
+            let b: Vec<u8> = match cls {
+                "valid" => dna(r, 12),
+                "empty" => vec![],
+                "bad_utf8" => vec![0x41, 0xff, 0xfe],
+                _ => return Some(Cmp::Unknown),
+            };
+            let cb = csb(&b);
+            let s = sourmash_str_from_cstr(cb.as_ptr());
+            let ok = if cls == "bad_utf8" {
+                s.data.is_null() && s.len == 0 && !s.owned
+            } else {
+                s.len == b.len() && s.as_str().as_bytes() == &b[..]
+            };
+            // marked owned but pointing into the caller's C string: never freed by us
+            std::mem::forget(s);
+            c(ok)
+        }
+        "sourmash_str_free" => {
+            let (m, _) = mh_pair(DNA21, &[1, 2, 3]);
+            match cls {
+                "owned" => {
+                    let mut s = kmerminhash_md5sum(m);
+                    sourmash_str_free(&mut s);
+                    std::mem::forget(s);
+                }
+                "twice" => {
+                    let mut s = kmerminhash_md5sum(m);
+                    sourmash_str_free(&mut s);
+                    sourmash_str_free(&mut s);
+                    std::mem::forget(s);
+                }
+                "borrowed" => {
+                    let sg = signature_new();
+                    let mut s = signature_get_name(sg);
+                    sourmash_str_free(&mut s);
+                    std::mem::forget(s);
+                    signature_free(sg);
+                }
+                "null" => sourmash_str_free(ptr::null_mut()),
+                _ => return Some(Cmp::Unknown),
+            }
+            kmerminhash_free(m);
+            Cmp::None
+        }
+        _ => return None,
+    })
+}
+
+// ---- HyperLogLog -------------------------------------------------------------------------------
+/// (through the C API, natively) with the same parameters and hashes; `None` params = default object
+unsafe fn hll_pair(e: Option<(f64, usize)>, hs: &[u64]) -> (HLL, HyperLogLog) {
+    match e {
+        None => (hll_new(), HyperLogLog::default()),
+        Some((e, k)) => {
+            let h = hll_with_error_rate(e, k);
+            let mut n = HyperLogLog::with_error_rate(e, k).unwrap();
+            for x in hs {
+                hll_add_hash(h, *x);
+                n.add_hash(*x);
+            }
+            (h, n)
+        }
+    }
+}
+unsafe fn hll_same(h: *const SourmashHyperLogLog, n: &HyperLogLog) -> bool {
+    SourmashHyperLogLog::as_rust(h) == n
+}
+fn hll_bytes(n: &HyperLogLog) -> Vec<u8> {
+    let mut b = vec![];
+    n.save_to_writer(&mut b).unwrap();
+    b
+}
+unsafe fn call_hll(f: &str, cls: &str, r: &mut Rng) -> Option<Cmp> {
+    if !f.starts_with("hll_") {
+        return None;
+    }
+    let hs = hashes(r, 200);
+    let hs2 = hashes(r, 150);
+    let e = 0.05;
+    let k = 21usize;
+    Some(match f {
+        "hll_new" => {
+            let h = hll_new();
+            let ok = !h.is_null() && hll_same(h, &HyperLogLog::default());
+            hll_free(h);
+            c(ok)
+        }
+        "hll_free" => {
+            match cls {
+                "valid" => hll_free(hll_pair(Some((e, k)), &hs).0),
+                "default" => hll_free(hll_new()),
+                "null" => hll_free(ptr::null_mut()),
+                _ => return Some(Cmp::Unknown),
+            }
+            Cmp::None
+        }
+        "hll_with_error_rate" => {
+            let er = match cls {
+                "valid" => 0.003 + (r.below(1000) as f64) * 0.0003,
+                "zero" => 0.0,
+                "negative" => -0.5,
+                "nan" => f64::NAN,
+                "too_large" => 0.9,
+                "too_small" => 1e-9,
+                "inf" => f64::INFINITY,
+                _ => return Some(Cmp::Unknown),
+            };
+            let want = nat_ok(|| HyperLogLog::with_error_rate(er, k));
+            let h = hll_with_error_rate(er, k);
+            let ok = match &want {
+                Some(n) => !h.is_null() && hll_same(h, n),
+                None => h.is_null(),
+            };
+            hll_free(h);
+            c(ok)
+        }
+        "hll_ksize" => {
+            let (h, n) = hll_pair(if cls == "default" { None } else { Some((e, r.range(1, 60) as usize)) }, &hs);
+            let ok = hll_ksize(h) == n.ksize();
+            hll_free(h);
+            c(ok)
+        }
+        "hll_cardinality" => {
+            let (h, n) = match cls {
+                "valid" => hll_pair(Some((e, k)), &hs),
+                "empty" => hll_pair(Some((e, k)), &[]),
+                "p4" => hll_pair(Some((0.3, k)), &hs),
+                "p18" => hll_pair(Some((0.0021, k)), &hs),
+                "default" => hll_pair(None, &[]),
+                _ => return Some(Cmp::Unknown),
+            };
+            let want = native(|| n.cardinality());
+            let got = hll_cardinality(h);
+            hll_free(h);
+            c(got == want.unwrap_or(0))
+        }
+        "hll_similarity" | "hll_containment" | "hll_intersection_size" => {
+            let ((a, na), (b, nb)) = match cls {
+                "valid" => (hll_pair(Some((e, k)), &hs), hll_pair(Some((e, k)), &hs2)),
+                "empty" => (hll_pair(Some((e, k)), &[]), hll_pair(Some((e, k)), &[])),
+                "self" => (hll_pair(Some((e, k)), &hs), hll_pair(Some((e, k)), &hs)),
+                "mismatch_p" => (hll_pair(Some((e, k)), &hs), hll_pair(Some((0.01, k)), &hs2)),
+                "mismatch_p4" => (hll_pair(Some((0.3, k)), &hs), hll_pair(Some((0.01, k)), &hs2)),
+                "mismatch_ksize" => (hll_pair(Some((e, k)), &hs), hll_pair(Some((e, 31)), &hs2)),
+                "default" => (hll_pair(None, &[]), hll_pair(None, &[])),
+                _ => return Some(Cmp::Unknown),
+            };
+            let ok = match f {
+                "hll_similarity" => {
+                    let want = native(|| na.similarity(&nb));
+                    bits(hll_similarity(a, b)) == bits(want.unwrap_or(0.0))
+                }
+                "hll_containment" => {
+                    let want = native(|| na.containment(&nb));
+                    bits(hll_containment(a, b)) == bits(want.unwrap_or(0.0))
+                }
+                _ => {
+                    let want = native(|| na.intersection(&nb));
+                    hll_intersection_size(a, b) == want.unwrap_or(0)
+                }
+            };
+            hll_free(a);
+            hll_free(b);
+            c(ok)
+        }
+        "hll_add_sequence" => {
+            let (h, mut n) = hll_pair(if cls == "default" { None } else { Some((e, k)) }, &[]);
+            let (s, force): (Vec<u8>, bool) = match cls {
+                "valid" | "default" => (dna(r, 120), false),
+                "invalid" | "invalid_force" => {
+                    let mut s = dna(r, 120);
+                    s[60] = b'N';
+                    (s, cls == "invalid_force")
+                }
+                "empty" => (vec![], false),
+                "short" => (dna(r, 5), false),
+                _ => return Some(Cmp::Unknown),
+            };
+            let nat = native(|| {
+                let _ = n.add_sequence(&s, force);
+                n
+            });
+            let p = if s.is_empty() { dangling::<c_char>() } else { s.as_ptr() as *const c_char };
+            hll_add_sequence(h, p, s.len(), force);
+            let ok = nat.map(|n| hll_same(h, &n)).unwrap_or(true);
+            hll_free(h);
+            c(ok)
+        }
+        "hll_add_hash" => {
+            let (h, mut n) = hll_pair(if cls == "default" { None } else { Some((e, k)) }, &hs);
+            let x = match cls {
+                "zero" => 0,
+                "max" => u64::MAX,
+                _ => r.bits(64),
+            };
+            let nat = native(|| {
+                n.add_hash(x);
+                n
+            });
+            hll_add_hash(h, x);
+            let ok = nat.map(|n| hll_same(h, &n)).unwrap_or(true);
+            hll_free(h);
+            c(ok)
+        }
+        "hll_merge" => {
+            let ((a, mut na), (b, nb)) = match cls {
+                "valid" => (hll_pair(Some((e, k)), &hs), hll_pair(Some((e, k)), &hs2)),
+                "mismatch_ksize" => (hll_pair(Some((e, k)), &hs), hll_pair(Some((e, 31)), &hs2)),
+                "mismatch_p" => (hll_pair(Some((e, k)), &hs), hll_pair(Some((0.01, k)), &hs2)),
+                "default" => (hll_pair(None, &[]), hll_pair(None, &[])),
+                _ => return Some(Cmp::Unknown),
+            };
+            let nat = native(|| {
+                let _ = na.merge(&nb);
+                na
+            });
+            hll_merge(a, b);
+            let ok = nat.map(|n| hll_same(a, &n)).unwrap_or(true);
+            hll_free(a);
+            hll_free(b);
+            c(ok)
+        }
+        "hll_update_mh" | "hll_matches" => {
+            let dflt = cls.starts_with("default");
+            let (h, mut n) = hll_pair(if dflt { None } else if cls == "p4" { Some((0.3, k)) } else { Some((e, k)) }, &hs);
+            let (m, nm) = mh_pair(DNA21, if cls.ends_with("empty_mh") { &[] } else { &hs2 });
+            let ok = if f == "hll_update_mh" {
+                let nat = native(|| {
+                    let _ = nm.update(&mut n);
+                    n
+                });
+                hll_update_mh(h, m);
+                nat.map(|n| hll_same(h, &n)).unwrap_or(true)
+            } else {
+                let want = native(|| n.intersection(&nm.as_hll()));
+                hll_matches(h, m) == want.unwrap_or(0)
+            };
+            hll_free(h);
+            kmerminhash_free(m);
+            c(ok)
+        }
+        "hll_from_path" | "hll_from_buffer" => {
+            let (h0, n) = hll_pair(Some((e, k)), &hs);
+            hll_free(h0);
+            let raw = hll_bytes(&n);
+            let td = tmpdir();
+            let h = if f == "hll_from_path" {
+                let mut p = td.path().join("x.hll").into_os_string().into_encoded_bytes();
+                match cls {
+                    "valid" => std::fs::write(td.path().join("x.hll"), &raw).unwrap(),
+                    "missing" => {}
+                    "garbage" => std::fs::write(td.path().join("x.hll"), b"this is not a hyperloglog file at all, sorry").unwrap(),
+                    "directory" => p = td.path().as_os_str().as_encoded_bytes().to_vec(),
+                    "bad_utf8" => p.extend_from_slice(&[0xff, 0xfe]),
+                    _ => return Some(Cmp::Unknown),
+                }
+                let cp = csb(&p);
+                hll_from_path(cp.as_ptr())
+            } else {
+                let b: Vec<u8> = match cls {
+                    "valid" => raw.clone(),
+                    "gz" => {
+                        let (h1, _) = hll_pair(Some((e, k)), &hs);
+                        let mut sz = 0usize;
+                        let p = hll_to_buffer(h1, &mut sz);
+                        hll_free(h1);
+                        take_slice(p, sz)
+                    }
+                    "empty" => vec![],
+                    "garbage" => b"this is not a hyperloglog file at all, sorry".to_vec(),
+                    "truncated" => raw[..raw.len() / 2].to_vec(),
+                    _ => return Some(Cmp::Unknown),
+                };
+                let p = if b.is_empty() { dangling::<c_char>() } else { b.as_ptr() as *const c_char };
+                hll_from_buffer(p, b.len())
+            };
+            let ok = if cls == "valid" || cls == "gz" { !h.is_null() && hll_same(h, &n) } else { h.is_null() };
+            hll_free(h);
+            c(ok)
+        }
+        "hll_save" | "hll_to_buffer" => {
+            let (h, n) = hll_pair(if cls == "default" { None } else { Some((e, k)) }, &hs);
+            let td = tmpdir();
+            let ok = if f == "hll_save" {
+                let path = if cls == "missing_dir" { td.path().join("no/such/dir/x.hll") } else { td.path().join("x.hll") };
+                let cp = cs(path.to_str().unwrap());
+                hll_save(h, cp.as_ptr());
+                if cls == "missing_dir" {
+                    !path.exists()
+                } else {
+                    std::fs::read(&path).ok() == Some(hll_bytes(&n))
+                }
+            } else {
+                let mut sz = 0usize;
+                let p = hll_to_buffer(h, &mut sz);
+                let b = take_slice(p, sz);
+                !p.is_null() && HyperLogLog::from_reader(&b[..]).ok() == HyperLogLog::from_reader(&hll_bytes(&n)[..]).ok()
+            };
+            hll_free(h);
+            c(ok)
+        }
+        _ => return Some(Cmp::Unknown),
+    })
+}
+
+// ---- KmerMinHash, one operand ------------------------------------------------------------------
+fn param_class(cls: &str, r: &mut Rng) -> P {
+    let a = DNA21;
+    match cls {
+        "protein" => P { hf: 2, ..a },
+        "dayhoff" => P { hf: 3, ..a },
+        "hp" => P { hf: 4, ..a },
+        "num" => P { scaled: 0, num: r.range(1, 1000) as u32, ..a },
+        "abund" => P { track: true, ..a },
+        "scaled" => P { scaled: r.range(2, 100_000), ..a },
+        "zero_zero" => P { scaled: 0, num: 0, ..a },
+        "k0" => P { k: 0, ..a },
+        "scaled_max" => P { scaled: u64::MAX, ..a },
+        _ => a,
+    }
+}
+unsafe fn call_mh(f: &str, cls: &str, r: &mut Rng) -> Option<Cmp> {
+    if !f.starts_with("kmerminhash_") {
+        return None;
+    }
+    let a = DNA21;
+    let hs = hashes(r, 40);
+    let name = &f["kmerminhash_".len()..];
+    // getters over the parameter classes
+    let getters = ["is_protein", "dayhoff", "hp", "seed", "track_abundance", "num", "ksize", "max_hash", "hash_function"];
+    if getters.contains(&name) {
+        let p = P { seed: r.bits(64), k: r.range(1, 90) as u32, ..param_class(cls, r) };
+        let (m, n) = mh_pair(p, &hs);
+        let ok = match name {
+            "is_protein" => kmerminhash_is_protein(m) == n.is_protein(),
+            "dayhoff" => kmerminhash_dayhoff(m) == n.dayhoff(),
+            "hp" => kmerminhash_hp(m) == n.hp(),
+            "seed" => kmerminhash_seed(m) == n.seed(),
+            "track_abundance" => kmerminhash_track_abundance(m) == n.track_abundance(),
+            "num" => kmerminhash_num(m) == n.num(),
+            "ksize" => kmerminhash_ksize(m) as usize == n.ksize(),
+            "max_hash" => kmerminhash_max_hash(m) == n.max_hash(),
+            _ => kmerminhash_hash_function(m) as u32 == p.hf,
+        };
+        kmerminhash_free(m);
+        return Some(c(ok));
+    }
+    Some(match name {
+        "new" => {
+            let p = param_class(cls, r);
+            let m = mh_new(p);
+            let ok = !m.is_null() && mh_eq(m, &mh_native(p));
+            kmerminhash_free(m);
+            c(ok)
+        }
+        "free" => {
+            match cls {
+                "valid" => kmerminhash_free(mh_pair(a, &hs).0),
+                "null" => kmerminhash_free(ptr::null_mut()),
+                _ => return Some(Cmp::Unknown),
+            }
+            Cmp::None
+        }
+        "slice_free" => {
+            let (m, _) = mh_pair(a, if cls == "empty" { &[] } else { &hs });
+            let mut n = 0usize;
+            let p = if cls == "null" { ptr::null() } else { kmerminhash_get_mins(m, &mut n) };
+            kmerminhash_slice_free(p as *mut u64, n);
+            kmerminhash_free(m);
+            Cmp::None
+        }
+        "add_sequence" => {
+            let p = match cls {
+                "protein_mh" => P { hf: 2, ..a },
+                "k0" => P { k: 0, ..a },
+                _ => a,
+            };
+            let (m, mut n) = mh_pair(p, &[]);
+            let (s, force): (Vec<u8>, bool) = match cls {
+                "valid" | "protein_mh" | "k0" => (dna(r, 150), false),
+                "invalid" | "invalid_force" => {
+                    let mut s = dna(r, 150);
+                    s[75] = b'N';
+                    (s, cls == "invalid_force")
+                }
+                "empty" => (vec![], false),
+                "short" => (dna(r, 7), false),
+                _ => return Some(Cmp::Unknown),
+            };
+            let nat = native(|| {
+                let _ = n.add_sequence(&s, force);
+                n
+            });
+            let cseq = csb(&s);
+            kmerminhash_add_sequence(m, cseq.as_ptr(), force);
+            let ok = nat.map(|n| mh_eq(m, &n)).unwrap_or(true);
+            kmerminhash_free(m);
+            c(ok)
+        }
+        "add_protein" => {
+            let p = match cls {
+                "dna_mh" => a,
+                "dayhoff" => P { hf: 3, ..a },
+                "hp" => P { hf: 4, ..a },
+                _ => P { hf: 2, ..a },
+            };
+            let (m, mut n) = mh_pair(p, &[]);
+            let s: Vec<u8> = match cls {
+                "valid" | "dna_mh" | "dayhoff" | "hp" => prot(r, 60),
+                "short" => prot(r, 3),
+                "empty" => vec![],
+                "non_aa" => b"ZZZZ####1234zzzzBBBBJJJJOOOOUUUU".to_vec(),
+                _ => return Some(Cmp::Unknown),
+            };
+            let nat = native(|| {
+                let _ = n.add_protein(&s);
+                n
+            });
+            let cseq = csb(&s);
+            kmerminhash_add_protein(m, cseq.as_ptr());
+            let ok = nat.map(|n| mh_eq(m, &n)).unwrap_or(true);
+            kmerminhash_free(m);
+            c(ok)
+        }
+        "seq_to_hashes" => {
+            let p = match cls {
+                "protein" => P { hf: 2, ..a },
+                "k0" => P { k: 0, ..a },
+                _ => a,
+            };
+            let (m, n) = mh_pair(p, &[]);
+            let (s, force, zeroes, is_prot): (Vec<u8>, bool, bool, bool) = match cls {
+                "valid" | "k0" => (dna(r, 100), false, false, false),
+                "invalid" | "invalid_force" | "force_zeroes" => {
+                    let mut s = dna(r, 100);
+                    s[50] = b'N';
+                    (s, cls != "invalid", cls == "force_zeroes", false)
+                }
+                "empty" => (vec![], false, false, false),
+                "protein" => (prot(r, 40), false, false, true),
+                "short" => (dna(r, 4), false, false, false),
+                _ => return Some(Cmp::Unknown),
+            };
+            let want = nat_ok(|| {
+                let mut out = vec![];
+                for h in sourmash::signature::SeqToHashes::new(&s, n.ksize(), force, is_prot, n.hash_function(), n.seed()) {
+                    match h {
+                        Ok(0) if !(force && zeroes) => continue,
+                        Ok(x) => out.push(x),
+                        Err(e) => return Err(e),
+                    }
+                }
+                Ok(out)
+            });
+            let ptr_s = if s.is_empty() { dangling::<c_char>() } else { s.as_ptr() as *const c_char };
+            let mut sz = 0usize;
+            let q = kmerminhash_seq_to_hashes(m, ptr_s, s.len(), force, zeroes, is_prot, &mut sz);
+            let ok = match want {
+                Some(w) => !q.is_null() && take_slice(q, sz) == w,
+                None => q.is_null(),
+            };
+            kmerminhash_free(m);
+            c(ok)
+        }
+        "clear" => {
+            let (m, mut n) = mh_pair(if cls == "abund" { P { track: true, ..a } } else { a }, if cls == "empty" { &[] } else { &hs });
+            n.md5sum();
+            kmerminhash_md5sum(m);
+            n.clear();
+            kmerminhash_clear(m);
+            let ok = mh_eq(m, &n) && str_take(kmerminhash_md5sum(m)) == n.md5sum();
+            kmerminhash_free(m);
+            c(ok)
+        }
+        "add_hash" => {
+            let p = match cls {
+                "above_max_hash" => P { scaled: 1 << 32, ..a },
+                "num_full" => P { scaled: 0, num: 3, ..a },
+                "abund" | "abund_overflow" => P { track: true, ..a },
+                _ => a,
+            };
+            let (m, mut n) = mh_pair(p, &hs[..5]);
+            let x = match cls {
+                "zero" => 0,
+                "max" | "above_max_hash" => u64::MAX,
+                "abund_overflow" => 77,
+                _ => r.bits(64),
+            };
+            if cls == "abund_overflow" {
+                // the hash is already present with the largest abundance
+                kmerminhash_add_hash_with_abundance(m, x, u64::MAX);
+                n.add_hash_with_abundance(x, u64::MAX);
+            }
+            let nat = native(|| {
+                n.add_hash(x);
+                n
+            });
+            kmerminhash_add_hash(m, x);
+            let ok = nat.map(|n| mh_eq(m, &n)).unwrap_or(true);
+            kmerminhash_free(m);
+            c(ok)
+        }
+        "add_hash_with_abundance" => {
+            let p = if cls == "no_track" { a } else { P { track: true, ..a } };
+            let (m, mut n) = mh_pair(p, &hs[..5]);
+            let (x, ab) = match cls {
+                "valid" => (r.bits(64), r.range(1, 1000)),
+                "zero_abund" => (hs[2], 0),
+                "max_abund" => (hs[2], u64::MAX),
+                "no_track" => (r.bits(64), 5),
+                "repeat" => (hs[1], 7),
+                _ => return Some(Cmp::Unknown),
+            };
+            let nat = native(|| {
+                n.add_hash_with_abundance(x, ab);
+                n
+            });
+            kmerminhash_add_hash_with_abundance(m, x, ab);
+            let ok = nat.map(|n| mh_eq(m, &n)).unwrap_or(true);
+            kmerminhash_free(m);
+            c(ok)
+        }
+        "add_word" => {
+            let (m, mut n) = mh_pair(if cls == "abund_overflow" { P { track: true, ..a } } else { a }, &hs[..5]);
+            let w: Vec<u8> = match cls {
+                "valid" | "abund_overflow" => dna(r, 21),
+                "empty" => vec![],
+                "non_acgt" => b"NNNN#xyz".to_vec(),
+                _ => return Some(Cmp::Unknown),
+            };
+            if cls == "abund_overflow" {
+                let h = sourmash::_hash_murmur(&w, a.seed);
+                kmerminhash_add_hash_with_abundance(m, h, u64::MAX);
+                n.add_hash_with_abundance(h, u64::MAX);
+            }
+            let nat = native(|| {
+                n.add_word(&w);
+                n
+            });
+            let cw = csb(&w);
+            kmerminhash_add_word(m, cw.as_ptr());
+            let ok = nat.map(|n| mh_eq(m, &n)).unwrap_or(true);
+            kmerminhash_free(m);
+            c(ok)
+        }
+        "remove_hash" | "remove_many" => {
+            let p = if cls == "abund" { P { track: true, ..a } } else { a };
+            let (m, mut n) = mh_pair(p, if cls == "empty" { &[] } else { &hs });
+            let xs: Vec<u64> = match cls {
+                "present" | "abund" | "valid" => vec![hs[3], hs[0], hs[hs.len() - 1]],
+                "absent" | "empty" => vec![hs[3] ^ 1, 0, u64::MAX],
+                "empty_list" => vec![],
+                _ => return Some(Cmp::Unknown),
+            };
+            if name == "remove_hash" {
+                for x in &xs[..1] {
+                    n.remove_hash(*x);
+                    kmerminhash_remove_hash(m, *x);
+                }
+            } else {
+                let _ = n.remove_many(xs.iter().copied());
+                let p = if xs.is_empty() { dangling::<u64>() } else { xs.as_ptr() };
+                kmerminhash_remove_many(m, p, xs.len());
+            }
+            let ok = mh_eq(m, &n);
+            kmerminhash_free(m);
+            c(ok)
+        }
+        "get_mins" | "get_mins_size" | "md5sum" => {
+            let (m, n) = mh_pair(a, if cls == "empty" { &[] } else { &hs });
+            let ok = match name {
+                "get_mins" => {
+                    let mut sz = 0usize;
+                    let p = kmerminhash_get_mins(m, &mut sz);
+                    !p.is_null() && take_slice(p, sz) == n.mins()
+                }
+                "get_mins_size" => kmerminhash_get_mins_size(m) == n.size(),
+                _ => str_take(kmerminhash_md5sum(m)) == n.md5sum(),
+            };
+            kmerminhash_free(m);
+            c(ok)
+        }
+        "get_abunds" => {
+            let p = if cls == "no_track" { a } else { P { track: true, ..a } };
+            let (m, n) = mh_pair(p, if cls == "empty" { &[] } else { &hs });
+            let mut sz = 0usize;
+            let q = kmerminhash_get_abunds(m, &mut sz);
+            let ok = match n.abunds() {
+                Some(w) => !q.is_null() && take_slice(q, sz) == w,
+                None => q.is_null(),
+            };
+            kmerminhash_free(m);
+            c(ok)
+        }
+        "add_many" => {
+            let (m, mut n) = mh_pair(a, &hs[..5]);
+            let xs: Vec<u64> = match cls {
+                "valid" => hashes(r, 30),
+                "empty_list" => vec![],
+                "dups" => vec![hs[1], hs[1], 9, 9, 9, hs[2]],
+                _ => return Some(Cmp::Unknown),
+            };
+            let _ = n.add_many(&xs);
+            let p = if xs.is_empty() { dangling::<u64>() } else { xs.as_ptr() };
+            kmerminhash_add_many(m, p, xs.len());
+            let ok = mh_eq(m, &n);
+            kmerminhash_free(m);
+            c(ok)
+        }
+        "set_abundances" => {
+            let p = if cls == "no_track" { a } else { P { track: true, ..a } };
+            let (m, mut n) = mh_pair(p, &hs[..5]);
+            let xs: Vec<u64> = if cls == "empty_list" { vec![] } else { hashes(r, 20) };
+            let abs: Vec<u64> = xs.iter().map(|_| if cls == "zero_abund" { 0 } else { r.range(1, 50) }).collect();
+            let clear = cls == "clear";
+            let nat = native(|| {
+                let mut pairs: Vec<(u64, u64)> = xs.iter().cloned().zip(abs.iter().cloned()).collect();
+                pairs.sort_unstable();
+                if clear {
+                    n.clear();
+                }
+                let _ = n.add_many_with_abund(&pairs);
+                n
+            });
+            let (px, pa) = if xs.is_empty() { (dangling::<u64>(), dangling::<u64>()) } else { (xs.as_ptr(), abs.as_ptr()) };
+            kmerminhash_set_abundances(m, px, pa, xs.len(), clear);
+            let ok = nat.map(|n| mh_eq(m, &n)).unwrap_or(true);
+            kmerminhash_free(m);
+            c(ok)
+        }
+        "disable_abundance" => {
+            let (m, mut n) = mh_pair(if cls == "abund" { P { track: true, ..a } } else { a }, &hs);
+            n.disable_abundance();
+            kmerminhash_disable_abundance(m);
+            let ok = mh_eq(m, &n);
+            kmerminhash_free(m);
+            c(ok)
+        }
+        "enable_abundance" => {
+            let (m, mut n) = mh_pair(if cls == "already" { P { track: true, ..a } } else { a }, if cls == "nonempty" { &hs } else { &[] });
+            let _ = n.enable_abundance();
+            kmerminhash_enable_abundance(m);
+            let ok = mh_eq(m, &n);
+            kmerminhash_free(m);
+            c(ok)
+        }
+        "hash_function_set" => {
+            let (m, mut n) = mh_pair(a, if cls == "empty" { &[] } else { &hs });
+            let to = if cls == "same" { 1 } else { 2 };
+            let _ = n.set_hash_function(nhf(to));
+            kmerminhash_hash_function_set(m, hf(to));
+            let ok = mh_eq(m, &n);
+            kmerminhash_free(m);
+            c(ok)
+        }
+        _ => return None,
+    })
+}
+
+// ---- KmerMinHash, two operands -----------------------------------------------------------------
+unsafe fn call_mh_bin(f: &str, cls: &str, r: &mut Rng) -> Option<Cmp> {
+    if !f.starts_with("kmerminhash_") {
+        return None;
+    }
+    let name = &f["kmerminhash_".len()..];
+    let (pa, pb) = bin_params(cls);
+    let mut ha = hashes(r, 40);
+    let mut hb = hashes(r, 30);
+    hb.extend_from_slice(&ha[..10]);
+    if cls == "empty" {
+        ha.clear();
+        hb.clear();
+    }
+    let (x, mut nx) = mh_pair(pa, &ha);
+    let (y, mut ny) = mh_pair(pb, &hb);
+    if cls == "abund_overflow" {
+        for (m, n) in [(x, &mut nx), (y, &mut ny)] {
+            for h in &ha[..3] {
+                kmerminhash_add_hash_with_abundance(m, *h, 1 << 33);
+                n.add_hash_with_abundance(*h, 1 << 33);
+            }
+        }
+    }
+    let down = cls.starts_with("downsample");
+    let ok = match name {
+        "merge" | "add_from" | "remove_from" => {
+            let nat = native(|| {
+                let _ = match name {
+                    "merge" => nx.merge(&ny),
+                    "add_from" => nx.add_from(&ny),
+                    _ => nx.remove_from(&ny),
+                };
+                nx
+            });
+            match name {
+                "merge" => kmerminhash_merge(x, y),
+                "add_from" => kmerminhash_add_from(x, y),
+                _ => kmerminhash_remove_from(x, y),
+            };
+            nat.map(|n| mh_eq(x, &n)).unwrap_or(true)
+        }
+        "is_compatible" => kmerminhash_is_compatible(x, y) == nx.check_compatible(&ny).is_ok(),
+        "intersection" => {
+            let want = nat_ok(|| {
+                let isect = nx.intersection(&ny)?;
+                let mut n = nx.clone();
+                n.clear();
+                n.add_many(&isect.0)?;
+                Ok(n)
+            });
+            let m = kmerminhash_intersection(x, y);
+            let ok = match want {
+                Some(w) => !m.is_null() && mh_eq(m, &w),
+                None => m.is_null(),
+            };
+            kmerminhash_free(m);
+            ok
+        }
+        "intersection_union_size" => {
+            let want = nat_ok(|| nx.intersection_size(&ny)).unwrap_or((0, 0));
+            let mut u = 99u64;
+            let got = kmerminhash_intersection_union_size(x, y, &mut u);
+            (got, u) == want
+        }
+        "jaccard" => {
+            let want = nat_ok(|| nx.jaccard(&ny)).unwrap_or(0.0);
+            bits(kmerminhash_jaccard(x, y)) == bits(want)
+        }
+        "angular_similarity" => {
+            let want = nat_ok(|| nx.angular_similarity(&ny)).unwrap_or(0.0);
+            bits(kmerminhash_angular_similarity(x, y)) == bits(want)
+        }
+        "count_common" => {
+            let want = nat_ok(|| nx.count_common(&ny, down)).unwrap_or(0);
+            kmerminhash_count_common(x, y, down) == want
+        }
+        "similarity" => {
+            let ign = cls == "ignore_abund";
+            let want = nat_ok(|| nx.similarity(&ny, ign, down)).unwrap_or(0.0);
+            bits(kmerminhash_similarity(x, y, ign, down)) == bits(want)
+        }
+        _ => {
+            kmerminhash_free(x);
+            kmerminhash_free(y);
+            return None;
+        }
+    };
+    kmerminhash_free(x);
+    kmerminhash_free(y);
+    Some(c(ok))
+}
+
+// ---- Nodegraph ---------------------------------------------------------------------------------
+fn ng_bytes(n: &Nodegraph) -> Vec<u8> {
+    let mut b = vec![];
+    n.save_to_writer(&mut b).unwrap();
+    b
+}
+/// serialized nodegraph with the given table sizes and all bits clear (khmer "OXLI" v4 layout)
+fn ng_raw(ksize: u32, sizes: &[u64]) -> Vec<u8> {
+    let mut b = b"OXLI\x04\x02".to_vec();
+    b.extend_from_slice(&ksize.to_le_bytes());
+    b.push(sizes.len() as u8);
+    b.extend_from_slice(&0u64.to_le_bytes());
+    for s in sizes {
+        b.extend_from_slice(&s.to_le_bytes());
+        b.extend(std::iter::repeat(0u8).take((*s / 8 + 1) as usize));
+    }
+    b
+}
+/// (through the C API, natively)
+unsafe fn ng_pair(kind: &str, hs: &[u64]) -> (NG, Nodegraph) {
+    let (g, mut n) = match kind {
+        "default" => (nodegraph_new(), Nodegraph::default()),
+        "zero_len_table" | "size32" => {
+            let raw = ng_raw(3, if kind == "size32" { &[32, 64] } else { &[0] });
+            (nodegraph_from_buffer(raw.as_ptr() as *const c_char, raw.len()), Nodegraph::from_reader(&raw[..]).unwrap())
+        }
+        "zero_tables" => (nodegraph_with_tables(3, 2, 1), Nodegraph::with_tables(2, 1, 3)),
+        "other_sizes" => (nodegraph_with_tables(3, 50, 4), Nodegraph::with_tables(50, 4, 3)),
+        "other_tables" => (nodegraph_with_tables(3, 1000, 2), Nodegraph::with_tables(1000, 2, 3)),
+        _ => (nodegraph_with_tables(3, 1000, 4), Nodegraph::with_tables(1000, 4, 3)),
+    };
+    if kind != "zero_len_table" {
+        for h in hs {
+            nodegraph_count(g, *h);
+            n.count(*h);
+        }
+    }
+    (g, n)
+}
+unsafe fn ng_same(g: *const SourmashNodegraph, n: &Nodegraph) -> bool {
+    let x = SourmashNodegraph::as_rust(g);
+    x == n && x.tablesizes() == n.tablesizes() && x.noccupied() == n.noccupied()
+}
+unsafe fn call_ng(f: &str, cls: &str, r: &mut Rng) -> Option<Cmp> {
+    if !f.starts_with("nodegraph_") {
+        return None;
+    }
+    let hs = hashes(r, 60);
+    let kind = match cls {
+        "default" | "zero_len_table" | "zero_tables" | "size32" => cls,
+        _ => "valid",
+    };
+    Some(match f {
+        "nodegraph_new" => {
+            let g = nodegraph_new();
+            let ok = !g.is_null() && ng_same(g, &Nodegraph::default());
+            nodegraph_free(g);
+            c(ok)
+        }
+        "nodegraph_free" => {
+            match cls {
+                "valid" | "default" => nodegraph_free(ng_pair(kind, &hs).0),
+                "null" => nodegraph_free(ptr::null_mut()),
+                _ => return Some(Cmp::Unknown),
+            }
+            Cmp::None
+        }
+        "nodegraph_buffer_free" => {
+            if cls == "null" {
+                nodegraph_buffer_free(ptr::null_mut(), 0);
+            } else {
+                let (g, _) = ng_pair("valid", &hs);
+                let mut sz = 0usize;
+                let p = nodegraph_to_buffer(g, 0, &mut sz);
+                nodegraph_buffer_free(p as *mut u8, sz);
+                nodegraph_free(g);
+            }
+            Cmp::None
+        }
+        "nodegraph_with_tables" => {
+            let (k, size, nt) = match cls {
+                "valid" => (r.range(1, 32) as usize, r.range(10, 100_000) as usize, r.range(1, 6) as usize),
+                "one_table" => (21, 1000, 1),
+                "zero_tables" => (21, 1000, 0),
+                "size2" => (21, 2, 2),
+                "size1" => (21, 1, 2),
+                "size0" => (21, 0, 2),
+                _ => return Some(Cmp::Unknown),
+            };
+            let want = native(|| Nodegraph::with_tables(size, nt, k));
+            let g = nodegraph_with_tables(k, size, nt);
+            let ok = match want {
+                Some(n) => !g.is_null() && ng_same(g, &n),
+                None => g.is_null(),
+            };
+            nodegraph_free(g);
+            c(ok)
+        }
+        "nodegraph_count" | "nodegraph_get" => {
+            let (g, mut n) = ng_pair(kind, &hs);
+            let h = match cls {
+                "repeat" | "present" => hs[3],
+                _ => r.bits(64),
+            };
+            let ok = if f == "nodegraph_count" {
+                let want = native(|| {
+                    let b = n.count(h);
+                    (b, n)
+                });
+                let got = nodegraph_count(g, h);
+                want.map(|(b, n)| b == got && ng_same(g, &n)).unwrap_or(!got)
+            } else {
+                let want = native(|| n.get(h));
+                nodegraph_get(g, h) == want.unwrap_or(0)
+            };
+            nodegraph_free(g);
+            c(ok)
+        }
+        "nodegraph_count_kmer" | "nodegraph_get_kmer" => {
+            // count_kmer/get_kmer are pub(crate): no native counterpart
+            let (g, _) = ng_pair(if cls == "default_non_acgt" { "default" } else { "valid" }, &hs);
+            let kmer: Vec<u8> = match cls {
+                "valid" => dna(r, 3),
+                "non_acgt" | "default_non_acgt" => b"ANG".to_vec(),
+                "lowercase" => b"acg".to_vec(),
+                "empty" => vec![],
+                _ => return Some(Cmp::Unknown),
+            };
+            let ck = csb(&kmer);
+            if f == "nodegraph_count_kmer" {
+                nodegraph_count_kmer(g, ck.as_ptr());
+            } else {
+                nodegraph_get_kmer(g, ck.as_ptr());
+            }
+            nodegraph_free(g);
+            Cmp::None
+        }
+        "nodegraph_expected_collisions" | "nodegraph_ksize" | "nodegraph_hashsizes" | "nodegraph_ntables" | "nodegraph_noccupied" => {
+            let many = hashes(r, 800);
+            let (g, n) = ng_pair(kind, if cls == "filled" { &many } else { &hs });
+            let ok = match f {
+                "nodegraph_expected_collisions" => {
+                    let want = native(|| n.expected_collisions());
+                    bits(nodegraph_expected_collisions(g)) == bits(want.unwrap_or(0.0))
+                }
+                "nodegraph_ksize" => nodegraph_ksize(g) == n.ksize(),
+                "nodegraph_ntables" => nodegraph_ntables(g) == n.ntables(),
+                "nodegraph_noccupied" => nodegraph_noccupied(g) == n.noccupied(),
+                _ => {
+                    let mut sz = 0usize;
+                    let p = nodegraph_hashsizes(g, &mut sz);
+                    take_slice(p, sz) == n.tablesizes()
+                }
+            };
+            nodegraph_free(g);
+            c(ok)
+        }
+        "nodegraph_matches" | "nodegraph_update_mh" => {
+            let (g, mut n) = ng_pair(kind, &hs);
+            let mut mhs = hashes(r, 20);
+            mhs.extend_from_slice(&hs[..10]);
+            let (m, nm) = mh_pair(DNA21, if cls == "empty_mh" { &[] } else { &mhs });
+            let ok = if f == "nodegraph_matches" {
+                let want = native(|| n.matches(&nm));
+                nodegraph_matches(g, m) == want.unwrap_or(0)
+            } else {
+                let nat = native(|| {
+                    let _ = nm.update(&mut n);
+                    n
+                });
+                nodegraph_update_mh(g, m);
+                nat.map(|n| ng_same(g, &n)).unwrap_or(true)
+            };
+            nodegraph_free(g);
+            kmerminhash_free(m);
+            c(ok)
+        }
+        "nodegraph_update" => {
+            let hs2 = hashes(r, 50);
+            let (ka, kb) = match cls {
+                "valid" | "self_sizes" => ("valid", "valid"),
+                "mismatch_tables" => ("valid", "other_tables"),
+                "mismatch_sizes" => ("valid", "other_sizes"),
+                "default_into_valid" => ("valid", "default"),
+                "valid_into_default" => ("default", "valid"),
+                "zero_len_table" => ("zero_len_table", "zero_len_table"),
+                _ => return Some(Cmp::Unknown),
+            };
+            let (a, mut na) = ng_pair(ka, &hs);
+            let (b, nb) = ng_pair(kb, &hs2);
+            let nat = native(|| {
+                let _ = nb.update(&mut na);
+                na
+            });
+            nodegraph_update(a, b);
+            let ok = nat.map(|n| ng_same(a, &n)).unwrap_or(true);
+            nodegraph_free(a);
+            nodegraph_free(b);
+            c(ok)
+        }
+        "nodegraph_from_path" | "nodegraph_from_buffer" => {
+            let (g0, n) = ng_pair("valid", &hs);
+            let raw = ng_bytes(&n);
+            let td = tmpdir();
+            let mut expect: Option<Nodegraph> = if cls == "valid" || cls == "gz" { Some(n) } else { None };
+            let g = if f == "nodegraph_from_path" {
+                let mut p = td.path().join("x.ng").into_os_string().into_encoded_bytes();
+                match cls {
+                    "valid" => std::fs::write(td.path().join("x.ng"), &raw).unwrap(),
+                    "missing" => {}
+                    "garbage" => std::fs::write(td.path().join("x.ng"), b"this is not a nodegraph file at all, sorry").unwrap(),
+                    "directory" => p = td.path().as_os_str().as_encoded_bytes().to_vec(),
+                    "bad_utf8" => p.extend_from_slice(&[0xff, 0xfe]),
+                    _ => return Some(Cmp::Unknown),
+                }
+                let cp = csb(&p);
+                nodegraph_from_path(cp.as_ptr())
+            } else {
+                let b: Vec<u8> = match cls {
+                    "valid" => raw.clone(),
+                    "gz" => {
+                        let mut sz = 0usize;
+                        let p = nodegraph_to_buffer(g0, 5, &mut sz);
+                        take_slice(p, sz)
+                    }
+                    "empty" => vec![],
+                    "garbage" => b"this is not a nodegraph file at all, sorry".to_vec(),
+                    "truncated" => raw[..raw.len() / 2].to_vec(),
+                    "zero_len_table" => {
+                        let b = ng_raw(3, &[0]);
+                        expect = Some(Nodegraph::from_reader(&b[..]).unwrap());
+                        b
+                    }
+                    _ => return Some(Cmp::Unknown),
+                };
+                let p = if b.is_empty() { dangling::<c_char>() } else { b.as_ptr() as *const c_char };
+                nodegraph_from_buffer(p, b.len())
+            };
+            nodegraph_free(g0);
+            let ok = match expect {
+                Some(n) => !g.is_null() && ng_same(g, &n),
+                None => g.is_null(),
+            };
+            nodegraph_free(g);
+            c(ok)
+        }
+        "nodegraph_save" | "nodegraph_to_buffer" => {
+            let (g, n) = ng_pair(kind, &hs);
+            let td = tmpdir();
+            let ok = if f == "nodegraph_save" {
+                let path = if cls == "missing_dir" { td.path().join("no/such/dir/x.ng") } else { td.path().join("x.ng") };
+                let cp = cs(path.to_str().unwrap());
+                nodegraph_save(g, cp.as_ptr());
+                if cls == "missing_dir" {
+                    !path.exists()
+                } else {
+                    Nodegraph::from_path(&path).map(|x| x == n).unwrap_or(false)
+                }
+            } else {
+                let level = match cls {
+                    "gz1" => 1,
+                    "gz9" => 9,
+                    _ => 0,
+                };
+                let mut sz = 0usize;
+                let p = nodegraph_to_buffer(g, level, &mut sz);
+                let b = take_slice(p, sz);
+                !p.is_null() && (level > 0 || b == ng_bytes(&n)) && Nodegraph::from_reader(&b[..]).map(|x| x == n).unwrap_or(false)
+            };
+            nodegraph_free(g);
+            c(ok)
+        }
+        _ => return Some(Cmp::Unknown),
+    })
+}
+
+// ---- Signature ---------------------------------------------------------------------------------
+fn sig_json(s: &Signature) -> String {
+    serde_json::to_string(s).unwrap()
+}
+unsafe fn sig_same(s: *const SourmashSignature, n: &Signature) -> bool {
+    sig_json(SourmashSignature::as_rust(s)) == sig_json(n)
+}
+fn params_class(cls: &str) -> ComputeParameters {
+    let mut p = ComputeParameters::default();
+    p.set_num_hashes(50);
+    match cls {
+        "protein" | "valid_protein" => {
+            p.set_dna(false);
+            p.set_protein(true);
+        }
+        "all_moltypes" => {
+            p.set_protein(true);
+            p.set_dayhoff(true);
+            p.set_hp(true);
+            p.set_track_abundance(true);
+        }
+        "no_ksizes" => {
+            p.set_ksizes(vec![]);
+        }
+        "no_moltypes" => {
+            p.set_dna(false);
+        }
+        "k0" => {
+            p.set_ksizes(vec![0, 3]);
+        }
+        "scaled" => {
+            p.set_num_hashes(0);
+            p.set_scaled(100);
+        }
+        _ => {}
+    }
+    p
+}
+/// (through the C API, natively) from the same compute parameters
+unsafe fn sig_pair(pcls: &str) -> (SIG, Signature) {
+    let s = sig_ffi(pcls);
+    (s, Signature::from_params(&params_class(pcls)))
+}
+unsafe fn sig_ffi(pcls: &str) -> SIG {
+    let p = params_class(pcls);
+    let cp = computeparams_new();
+    let q = SourmashComputeParameters::as_rust_mut(cp);
+    q.set_num_hashes(p.num_hashes());
+    q.set_dna(p.dna());
+    q.set_protein(p.protein());
+    q.set_dayhoff(p.dayhoff());
+    q.set_hp(p.hp());
+    q.set_track_abundance(p.track_abundance());
+    q.set_ksizes(p.ksizes().clone());
+    q.set_scaled(p.scaled());
+    let s = signature_from_params(cp);
+    computeparams_free(cp);
+    s
+}
+/// a signature holding one flat MinHash sketch
+unsafe fn sig_mh_pair(p: P, hs: &[u64], name: &str) -> (SIG, Signature) {
+    let (m, nm) = mh_pair(p, hs);
+    let s = signature_new();
+    let mut n = Signature::default();
+    signature_push_mh(s, m);
+    n.push(Sketch::MinHash(nm));
+    if !name.is_empty() {
+        let cn = cs(name);
+        signature_set_name(s, cn.as_ptr());
+        n.set_name(name);
+    }
+    kmerminhash_free(m);
+    (s, n)
+}
+unsafe fn free_sig_list(p: *mut *mut SourmashSignature, n: usize) -> Vec<String> {
+    let mut out = vec![];
+    for s in take_slice(p as *const SIG, n) {
+        out.push(sig_json(SourmashSignature::as_rust(s)));
+        signature_free(s);
+    }
+    out
+}
+unsafe fn call_sig(f: &str, cls: &str, r: &mut Rng) -> Option<Cmp> {
+    if !f.starts_with("signature") {
+        return None;
+    }
+    let hs = hashes(r, 30);
+    Some(match f {
+        "signature_new" => {
+            let s = signature_new();
+            let ok = !s.is_null() && sig_same(s, &Signature::default());
+            signature_free(s);
+            c(ok)
+        }
+        "signature_free" => {
+            match cls {
+                "valid" => signature_free(sig_pair("default").0),
+                "null" => signature_free(ptr::null_mut()),
+                _ => return Some(Cmp::Unknown),
+            }
+            Cmp::None
+        }
+        "signature_from_params" => {
+            let p = params_class(cls);
+            let want = native(|| Signature::from_params(&p));
+            let s = sig_ffi(cls);
+            let ok = match want {
+                Some(n) => !s.is_null() && sig_same(s, &n),
+                None => s.is_null(),
+            };
+            signature_free(s);
+            c(ok)
+        }
+        "signature_len" => {
+            let (s, n) = if cls == "default" { (signature_new(), Signature::default()) } else { sig_pair("all_moltypes") };
+            let ok = signature_len(s) == n.size();
+            signature_free(s);
+            c(ok)
+        }
+        "signature_add_sequence" | "signature_add_protein" => {
+            let is_prot = f.ends_with("protein");
+            let (s, mut n) = match cls {
+                "empty_sig" => (signature_new(), Signature::default()),
+                "protein_sig" | "valid" if is_prot || cls == "protein_sig" => sig_pair("protein"),
+                "short" => sig_pair("protein"),
+                _ => sig_pair("default"),
+            };
+            let seq: Vec<u8> = if is_prot {
+                match cls {
+                    "short" => prot(r, 2),
+                    _ => prot(r, 80),
+                }
+            } else {
+                match cls {
+                    "invalid" | "invalid_force" => {
+                        let mut q = dna(r, 200);
+                        q[100] = b'N';
+                        q
+                    }
+                    "empty_seq" => vec![],
+                    _ => dna(r, 200),
+                }
+            };
+            let force = cls == "invalid_force";
+            let nat = native(|| {
+                let _ = if is_prot { n.add_protein(&seq) } else { n.add_sequence(&seq, force) };
+                n
+            });
+            let cq = csb(&seq);
+            if is_prot {
+                signature_add_protein(s, cq.as_ptr());
+            } else {
+                signature_add_sequence(s, cq.as_ptr(), force);
+            }
+            // after a failure the sketches hold whatever each (parallel) worker added before the error
+            let failed = last_code() != 0;
+            let ok = failed || nat.map(|n| sig_same(s, &n)).unwrap_or(true);
+            signature_free(s);
+            c(ok)
+        }
+        "signature_set_name" | "signature_set_filename" | "signature_get_name" | "signature_get_filename" | "signature_get_license" => {
+            let (s, mut n) = sig_mh_pair(DNA21, &hs, "");
+            let v: Vec<u8> = match cls {
+                "valid" | "set" => dna(r, 10),
+                "empty" | "unset" | "default" => vec![],
+                "bad_utf8" => vec![0x41, 0xff, 0xfe],
+                _ => return Some(Cmp::Unknown),
+            };
+            let cv = csb(&v);
+            let is_name = f.ends_with("_name");
+            if f.contains("_set_") || cls == "set" {
+                if let Ok(t) = std::str::from_utf8(&v) {
+                    if is_name {
+                        n.set_name(t)
+                    } else {
+                        n.set_filename(t)
+                    }
+                }
+                if f.contains("_set_") {
+                    if is_name {
+                        signature_set_name(s, cv.as_ptr());
+                    } else {
+                        signature_set_filename(s, cv.as_ptr());
+                    }
+                } else {
+                    let t = std::str::from_utf8(&v).unwrap();
+                    if is_name {
+                        SourmashSignature::as_rust_mut(s).set_name(t)
+                    } else {
+                        SourmashSignature::as_rust_mut(s).set_filename(t)
+                    }
+                }
+            }
+            let ok = match f {
+                "signature_get_name" => str_take(signature_get_name(s)) == if cls == "set" { n.name() } else { String::new() },
+                "signature_get_filename" => str_take(signature_get_filename(s)) == n.filename(),
+                "signature_get_license" => str_take(signature_get_license(s)) == n.license(),
+                _ => sig_same(s, &n),
+            };
+            signature_free(s);
+            c(ok)
+        }
+        "signature_push_mh" | "signature_set_mh" => {
+            let (s, mut n) = if cls == "replace" { sig_pair("default") } else { (signature_new(), Signature::default()) };
+            let (m, nm) = mh_pair(DNA21, &hs);
+            let times = if cls == "twice" { 2 } else { 1 };
+            for _ in 0..times {
+                if f.ends_with("push_mh") {
+                    signature_push_mh(s, m);
+                    n.push(Sketch::MinHash(nm.clone()));
+                } else {
+                    signature_set_mh(s, m);
+                    n.reset_sketches();
+                    n.push(Sketch::MinHash(nm.clone()));
+                }
+            }
+            let ok = sig_same(s, &n);
+            kmerminhash_free(m);
+            signature_free(s);
+            c(ok)
+        }
+        "signature_first_mh" => {
+            let (s, n) = match cls {
+                "valid" => sig_mh_pair(P { track: true, ..DNA21 }, &hs, "x"),
+                "empty_sig" => (signature_new(), Signature::default()),
+                "large_mh" => sig_pair("default"),
+                "hll_sketch" => {
+                    let s = signature_new();
+                    let mut n = Signature::default();
+                    let h = HyperLogLog::with_error_rate(0.05, 21).unwrap();
+                    SourmashSignature::as_rust_mut(s).push(Sketch::HyperLogLog(h.clone()));
+                    n.push(Sketch::HyperLogLog(h));
+                    (s, n)
+                }
+                _ => return Some(Cmp::Unknown),
+            };
+            let want: Option<KmerMinHash> = match n.sketches().first() {
+                Some(Sketch::MinHash(m)) => Some(m.clone()),
+                Some(Sketch::LargeMinHash(m)) => Some(m.into()),
+                _ => None,
+            };
+            let m = signature_first_mh(s);
+            let ok = match want {
+                Some(w) => !m.is_null() && mh_eq(m, &w),
+                None => m.is_null(),
+            };
+            kmerminhash_free(m);
+            signature_free(s);
+            c(ok)
+        }
+        "signature_eq" => {
+            let (a, na) = match cls {
+                "empty" => (signature_new(), Signature::default()),
+                _ => sig_mh_pair(DNA21, &hs, "a"),
+            };
+            let (b, nb) = match cls {
+                "empty" => (signature_new(), Signature::default()),
+                "different" => sig_mh_pair(DNA21, &hs[..5], "b"),
+                _ => sig_mh_pair(DNA21, &hs, "a"),
+            };
+            let want = native(|| na == nb);
+            let got = if cls == "self" { signature_eq(a, a) } else { signature_eq(a, b) };
+            signature_free(a);
+            signature_free(b);
+            c(got == want.unwrap_or(false))
+        }
+        "signature_save_json" => {
+            let (s, n) = if cls == "empty_sig" { (signature_new(), Signature::default()) } else { sig_mh_pair(P { track: true, ..DNA21 }, &hs, "nm") };
+            let ok = str_take(signature_save_json(s)) == sig_json(&n);
+            signature_free(s);
+            c(ok)
+        }
+        "signature_get_mhs" => {
+            let (s, n) = if cls == "empty_sig" { (signature_new(), Signature::default()) } else { sig_pair("all_moltypes") };
+            let mut sz = 0usize;
+            let p = signature_get_mhs(s, &mut sz);
+            // the elements are boxed `Sketch` values (not KmerMinHash objects); released as such
+            let items = take_slice(p as *const *mut Sketch, sz);
+            let mut ks = vec![];
+            for it in items {
+                let b = Box::from_raw(it);
+                ks.push(b.ksize());
+            }
+            let want: Vec<usize> = n.sketches().iter().map(|s| s.ksize()).collect();
+            signature_free(s);
+            c(!p.is_null() && ks == want)
+        }
+        "signatures_save_buffer" => {
+            let (a, na) = sig_mh_pair(DNA21, &hs, "a");
+            let (b, nb) = sig_mh_pair(P { track: true, ..DNA21 }, &hs[..7], "b");
+            let list: Vec<*const SourmashSignature> = if cls == "empty_list" { vec![] } else { vec![a as *const _, b as *const _] };
+            let want: Vec<&Signature> = if cls == "empty_list" { vec![] } else { vec![&na, &nb] };
+            let mut sz = 0usize;
+            let p = signatures_save_buffer(if list.is_empty() { dangling() } else { list.as_ptr() }, list.len(), if cls == "gz" { 5 } else { 0 }, &mut sz);
+            let buf = take_slice(p, sz);
+            let ok = if cls == "gz" {
+                let back = Signature::from_reader(&buf[..]).map(|v| v.iter().map(sig_json).collect::<Vec<_>>());
+                !p.is_null() && back.ok() == Some(want.iter().map(|s| sig_json(s)).collect::<Vec<_>>())
+            } else {
+                !p.is_null() && buf == serde_json::to_vec(&want).unwrap()
+            };
+            signature_free(a);
+            signature_free(b);
+            c(ok)
+        }
+        "signatures_load_path" | "signatures_load_buffer" => {
+            let by_path = f.ends_with("path");
+            let td = tmpdir();
+            let mut path: Vec<u8> = format!("{}/47.fa.sig", TD).into_bytes();
+            let mut ksize = 0usize;
+            let mut mol: Option<Vec<u8>> = None;
+            let mut buf: Option<Vec<u8>> = None;
+            match cls {
+                "valid" => {}
+                "select_k" => ksize = 31,
+                "select_none" => ksize = 7,
+                "select_moltype" => mol = Some(b"DNA".to_vec()),
+                "bad_moltype" => mol = Some(b"rna".to_vec()),
+                "moltype_bad_utf8" => mol = Some(vec![0xff, 0xfe]),
+                "missing" => path = td.path().join("nope.sig").into_os_string().into_encoded_bytes(),
+                "garbage" => {
+                    path = format!("{}/short.fa", TD).into_bytes();
+                    buf = Some(b"{\"not\": \"a signature list\"".to_vec());
+                }
+                "gz" => path = format!("{}/genome-s10+s11.sig.gz", TD).into_bytes(),
+                "bad_utf8" => path.extend_from_slice(&[0xff, 0xfe]),
+                "empty" => buf = Some(vec![]),
+                "bad_molecule" => {
+                    buf = Some(br#"[{"class":"sourmash_signature","hash_function":"0.murmur64","signatures":[{"num":0,"ksize":21,"seed":42,"max_hash":100,"mins":[1,2],"md5sum":"x","molecule":"rna"}],"version":0.4}]"#.to_vec())
+                }
+                "hll_sketch" => {
+                    let mut n = Signature::default();
+                    n.push(Sketch::HyperLogLog(HyperLogLog::with_error_rate(0.3, 21).unwrap()));
+                    buf = Some(format!("[{}]", sig_json(&n)).into_bytes());
+                }
+                _ => return Some(Cmp::Unknown),
+            }
+            let data: Vec<u8> = match (&buf, by_path) {
+                (Some(b), false) => b.clone(),
+                _ => std::fs::read(std::str::from_utf8(&path).unwrap_or("/nonexistent")).unwrap_or_default(),
+            };
+            let nmol = mol.clone();
+            let want = nat_ok(|| {
+                let m = match &nmol {
+                    None => None,
+                    Some(b) => Some(sourmash::encodings::HashFunctions::try_from(std::str::from_utf8(b)?)?),
+                };
+                if by_path && (cls == "missing" || cls == "bad_utf8") {
+                    return Err(SourmashError::Internal { message: "no file".into() });
+                }
+                Signature::load_signatures(&data[..], if ksize == 0 { None } else { Some(ksize) }, m, None)
+            })
+            .map(|v| v.iter().map(sig_json).collect::<Vec<_>>());
+            let cmol = mol.map(|m| csb(&m));
+            let pmol = cmol.as_ref().map(|c| c.as_ptr()).unwrap_or(ptr::null());
+            let mut sz = 0usize;
+            let p = if by_path {
+                let cp = csb(&path);
+                signatures_load_path(cp.as_ptr(), false, ksize, pmol, &mut sz)
+            } else {
+                let q = if data.is_empty() { dangling::<c_char>() } else { data.as_ptr() as *const c_char };
+                signatures_load_buffer(q, data.len(), false, ksize, pmol, &mut sz)
+            };
+            let ok = match want {
+                Some(w) => !p.is_null() && free_sig_list(p, sz) == w,
+                None => p.is_null(),
+            };
+            c(ok)
+        }
+        _ => return Some(Cmp::Unknown),
+    })
+}
+
+// ---- ZipStorage --------------------------------------------------------------------------------
+unsafe fn free_str_list(p: *mut *mut SourmashStr, n: usize) -> Vec<String> {
+    let mut out = vec![];
+    for s in take_slice(p as *const *mut SourmashStr, n) {
+        let b = Box::from_raw(s);
+        out.push(b.as_str().to_string());
+    }
+    out
+}
+unsafe fn call_zip(f: &str, cls: &str, _r: &mut Rng) -> Option<Cmp> {
+    if !f.starts_with("zipstorage_") {
+        return None;
+    }
+    let td = tmpdir();
+    let sbt = format!("{}/v6.sbt.zip", TD);
+    let sigzip = format!("{}/47.fa.sig.zip", TD);
+    if f == "zipstorage_new" {
+        let p: Vec<u8> = match cls {
+            "valid" => sbt.clone().into_bytes(),
+            "missing" => td.path().join("nope.zip").into_os_string().into_encoded_bytes(),
+            "not_a_zip" => format!("{}/47.fa.sig", TD).into_bytes(),
+            "empty_path" => vec![],
+            "bad_utf8" => vec![0x2f, 0xff, 0xfe],
+            "directory" => td.path().as_os_str().as_encoded_bytes().to_vec(),
+            _ => return Some(Cmp::Unknown),
+        };
+        let q = if p.is_empty() { dangling::<c_char>() } else { p.as_ptr() as *const c_char };
+        let z = zipstorage_new(q, p.len());
+        let ok = if cls == "valid" {
+            !z.is_null() && SourmashZipStorage::as_rust(z).path().map(|x| x.to_string()) == Some(sbt.clone())
+        } else {
+            z.is_null()
+        };
+        zipstorage_free(z);
+        return Some(c(ok));
+    }
+    if f == "zipstorage_free" && cls == "null" {
+        zipstorage_free(ptr::null_mut());
+        return Some(Cmp::None);
+    }
+    let file = if cls == "sig_zip" { &sigzip } else { &sbt };
+    let z = zipstorage_new(file.as_ptr() as *const c_char, file.len());
+    let mut n = ZipStorage::from_file(file).unwrap();
+    let res = match f {
+        "zipstorage_free" => Cmp::None,
+        "zipstorage_load" => {
+            let names = n.filenames().unwrap();
+            let first = names.iter().find(|x| !x.ends_with('/')).cloned().unwrap_or_default();
+            let p: Vec<u8> = match cls {
+                "valid" => first.into_bytes(),
+                "missing_entry" => b"no/such/entry".to_vec(),
+                "empty_path" => vec![],
+                "bad_utf8" => vec![0x61, 0xff, 0xfe],
+                _ => return Some(Cmp::Unknown),
+            };
+            let want = nat_ok(|| n.load(std::str::from_utf8(&p)?));
+            let q = if p.is_empty() { dangling::<c_char>() } else { p.as_ptr() as *const c_char };
+            let mut sz = 0usize;
+            let b = zipstorage_load(z, q, p.len(), &mut sz);
+            match want {
+                Some(w) => c(!b.is_null() && take_slice(b, sz) == w),
+                None => c(b.is_null()),
+            }
+        }
+        "zipstorage_list_sbts" | "zipstorage_filenames" => {
+            let mut sz = 0usize;
+            let (p, want) = if f.ends_with("sbts") { (zipstorage_list_sbts(z, &mut sz), n.list_sbts().unwrap()) } else { (zipstorage_filenames(z, &mut sz), n.filenames().unwrap()) };
+            c(!p.is_null() && free_str_list(p, sz) == want)
+        }
+        "zipstorage_set_subdir" => {
+            let p: Vec<u8> = match cls {
+                "valid" => b".sbt.v3".to_vec(),
+                "empty" => vec![],
+                "bad_utf8" => vec![0x61, 0xff, 0xfe],
+                _ => return Some(Cmp::Unknown),
+            };
+            if let Ok(t) = std::str::from_utf8(&p) {
+                n.set_subdir(t.to_string());
+            }
+            let q = if p.is_empty() { dangling::<c_char>() } else { p.as_ptr() as *const c_char };
+            zipstorage_set_subdir(z, q, p.len());
+            c(SourmashZipStorage::as_rust(z).subdir() == n.subdir())
+        }
+        "zipstorage_path" => c(Some(str_take(zipstorage_path(z))) == n.path().map(|x| x.to_string())),
+        "zipstorage_subdir" => {
+            if cls == "set" {
+                n.set_subdir("abc".into());
+                zipstorage_set_subdir(z, b"abc".as_ptr() as *const c_char, 3);
+            }
+            c(str_take(zipstorage_subdir(z)) == n.subdir().unwrap_or_default())
+        }
+        _ => Cmp::Unknown,
+    };
+    zipstorage_free(z);
+    Some(res)
+}
+
+// ---- RevIndex / search results -----------------------------------------------------------------
+unsafe fn call_rev(f: &str, cls: &str, r: &mut Rng) -> Option<Cmp> {
+    use sourmash::index::revindex::mem_revindex::RevIndex;
+    use sourmash::index::Index;
+    if !f.starts_with("revindex_") && !f.starts_with("searchresult_") {
+        return None;
+    }
+    let p = DNA21;
+    let base = hashes(r, 60);
+    let sets: [Vec<u64>; 3] = [base[..40].to_vec(), base[20..].to_vec(), hashes(r, 30)];
+    let mut sigs = vec![];
+    let mut nsigs = vec![];
+    for (i, s) in sets.iter().enumerate() {
+        let (a, b) = sig_mh_pair(p, s, &format!("sig{}", i));
+        sigs.push(a as *const SourmashSignature);
+        nsigs.push(b);
+    }
+    let free_sigs = |sigs: &Vec<*const SourmashSignature>| {
+        for s in sigs {
+            signature_free(*s as SIG);
+        }
+    };
+    let sel = |t: &KmerMinHash| Selection::builder().ksize(t.ksize() as u32).num(t.num()).scaled(t.scaled() as u32).build();
+    if f == "revindex_free" && cls == "null" {
+        revindex_free(ptr::null_mut());
+        free_sigs(&sigs);
+        return Some(Cmp::None);
+    }
+    if f == "revindex_new_with_sigs" || f == "revindex_new_with_paths" {
+        let tp = if cls == "template_mismatch" { P { k: 31, ..p } } else { p };
+        let (t, nt) = mh_pair(tp, &[]);
+        let (q1, nq1) = mh_pair(p, &base[..10]);
+        let (q2, nq2) = mh_pair(if cls == "queries_threshold0_mismatch" { P { k: 31, ..p } } else { p }, &base[5..15]);
+        let (qs, nqs, thr): (Option<Vec<*const SourmashKmerMinHash>>, Option<Vec<KmerMinHash>>, usize) = match cls {
+            "with_queries" => (Some(vec![q1 as *const _, q2 as *const _]), Some(vec![nq1, nq2]), 1),
+            "queries_threshold0_mismatch" => (Some(vec![q1 as *const _, q2 as *const _]), Some(vec![nq1, nq2]), 0),
+            "empty_queries" => (Some(vec![]), Some(vec![]), 0),
+            _ => (None, None, 0),
+        };
+        let (qp, qn) = match &qs {
+            None => (ptr::null(), 0),
+            Some(v) if v.is_empty() => (dangling(), 0),
+            Some(v) => (v.as_ptr(), v.len()),
+        };
+        let (ri, want_len) = if f == "revindex_new_with_sigs" {
+            let list: Vec<*const SourmashSignature> = if cls == "empty_sigs" { vec![] } else { sigs.clone() };
+            let nlist: Vec<Signature> = if cls == "empty_sigs" { vec![] } else { nsigs.clone() };
+            let want = nat_ok(|| RevIndex::new_with_sigs(nlist, &sel(&nt), thr, nqs.as_deref())).map(|x| x.len());
+            (revindex_new_with_sigs(if list.is_empty() { dangling() } else { list.as_ptr() }, list.len(), t, thr, qp, qn), want)
+        } else {
+            let td = tmpdir();
+            let paths: Vec<String> = match cls {
+                "valid" | "with_queries" => vec![format!("{}/47.fa.sig", TD), format!("{}/63.fa.sig", TD)],
+                "missing" => vec![td.path().join("nope.sig").to_str().unwrap().to_string()],
+                "empty_paths" => vec![],
+                "garbage" => vec![format!("{}/short.fa", TD)],
+                _ => return Some(Cmp::Unknown),
+            };
+            // the real files are k=21/31/51 scaled=1000 sketches
+            let (t2, nt2) = mh_pair(P { scaled: 1000, k: 31, ..p }, &[]);
+            let strs: Vec<SourmashStr> = paths.iter().map(|x| SourmashStr::new(x)).collect();
+            let ptrs: Vec<*const SourmashStr> = strs.iter().map(|x| x as *const SourmashStr).collect();
+            let pb: Vec<camino::Utf8PathBuf> = paths.iter().map(camino::Utf8PathBuf::from).collect();
+            let want = nat_ok(|| RevIndex::new(&pb, &sel(&nt2), thr, nqs.as_deref(), false)).map(|x| x.len());
+            let ri = revindex_new_with_paths(if ptrs.is_empty() { dangling() } else { ptrs.as_ptr() }, ptrs.len(), t2, thr, qp, qn, false);
+            kmerminhash_free(t2);
+            (ri, want)
+        };
+        let ok = match want_len {
+            Some(n) => !ri.is_null() && SourmashRevIndex::as_rust(ri).len() == n,
+            None => ri.is_null(),
+        };
+        revindex_free(ri);
+        kmerminhash_free(t);
+        kmerminhash_free(q1);
+        kmerminhash_free(q2);
+        free_sigs(&sigs);
+        return Some(c(ok));
+    }
+    // an index over the three in-memory signatures (or over none)
+    let (t, nt) = mh_pair(p, &[]);
+    let empty = cls == "empty";
+    let ri = revindex_new_with_sigs(if empty { dangling() } else { sigs.as_ptr() }, if empty { 0 } else { sigs.len() }, t, 0, ptr::null(), 0);
+    let nri = nat_ok(|| RevIndex::new_with_sigs(if empty { vec![] } else { nsigs.clone() }, &sel(&nt), 0, None));
+    if ri.is_null() || nri.is_none() {
+        // construction itself failed: report as a difference, the constructor scenarios explain it
+        kmerminhash_free(t);
+        free_sigs(&sigs);
+        return Some(Cmp::Diff);
+    }
+    let nri = nri.unwrap();
+    // queries
+    let (q, nq) = match cls {
+        "empty_sig" => (signature_new(), Signature::default()),
+        "no_match" => sig_mh_pair(p, &hashes(r, 25), "q"),
+        "mismatch_ksize" => sig_mh_pair(P { k: 31, ..p }, &sets[0], "q"),
+        "large_mh" => sig_pair("default"),
+        _ => sig_mh_pair(p, &sets[0], "q"),
+    };
+    let res = match f {
+        "revindex_free" => Cmp::None,
+        "revindex_len" => c(revindex_len(ri) == nri.len() as u64),
+        "revindex_scaled" => {
+            let want = match nri.template() {
+                Sketch::MinHash(m) => m.scaled(),
+                _ => 0,
+            };
+            c(revindex_scaled(ri) == want)
+        }
+        "revindex_signatures" => {
+            let mut sz = 0usize;
+            let pp = revindex_signatures(ri, &mut sz);
+            let mut got = free_sig_list(pp, sz);
+            let mut want: Vec<String> = nri.signatures().iter().map(sig_json).collect();
+            got.sort();
+            want.sort();
+            c(!pp.is_null() && got == want)
+        }
+        "revindex_search" | "revindex_gather" | "searchresult_score" | "searchresult_filename" | "searchresult_signature" | "searchresult_free" => {
+            if f == "searchresult_free" && cls == "null" {
+                searchresult_free(ptr::null_mut());
+                Cmp::None
+            } else {
+                let mut sz = 0usize;
+                let thr = if cls == "threshold_big" { 1e300 } else { 0.0 };
+                let gather_want = match nq.sketches().first() {
+                    None => Some(vec![]),
+                    Some(Sketch::MinHash(m)) => {
+                        let t: usize = (thr * (m.size() as f64)) as _;
+                        nat_ok(|| nri.gather(nri.counter_for_query(m), t, m)).map(|v| v.iter().map(|g| (bits(g.f_match()), sig_json(&g.get_match()), g.filename().to_owned())).collect::<Vec<_>>())
+                    }
+                    _ => None,
+                };
+                let pp = if f == "revindex_gather" { revindex_gather(ri, q, thr, false, false, &mut sz) } else { revindex_search(ri, q, thr, cls == "containment", false, &mut sz) };
+                let items = take_slice(pp as *const *mut SourmashSearchResult, sz);
+                let mut rows: Vec<(u64, String, String)> = vec![];
+                let mut ok = true;
+                for it in &items {
+                    let sc = searchresult_score(*it);
+                    let fnm = str_take(searchresult_filename(*it));
+                    let sg = searchresult_signature(*it);
+                    let rs = SourmashSearchResult::as_rust(*it);
+                    ok &= bits(sc) == bits(rs.0) && fnm == rs.2 && sig_same(sg, &rs.1);
+                    rows.push((bits(sc), sig_json(&rs.1), fnm));
+                    signature_free(sg);
+                    searchresult_free(*it);
+                }
+                if f == "revindex_gather" {
+                    let want = gather_want;
+                    match want {
+                        Some(w) => c(ok && rows == w),
+                        None => c(pp.is_null() && rows.is_empty()),
+                    }
+                } else if f == "revindex_search" {
+                    // find_signatures is crate-private: only the result objects are cross-checked
+                    if ok {
+                        Cmp::None
+                    } else {
+                        Cmp::Diff
+                    }
+                } else {
+                    c(ok && !rows.is_empty())
+                }
+            }
+        }
+        _ => Cmp::Unknown,
+    };
+    signature_free(q);
+    revindex_free(ri);
+    kmerminhash_free(t);
+    free_sigs(&sigs);
+    Some(res)
+}
 
 fn child(a: &Args) {
     let f = a.rest.first().cloned().unwrap_or_default();
@@ -940,7 +2853,10 @@ fn child(a: &Args) {
     let seed: u64 = a.rest.get(2).and_then(|s| s.parse().ok()).unwrap_or(0);
     let mut r = Rng::new(seed ^ 0xC20);
     unsafe {
-        sourmash_init();
+        // C20_NOINIT=1 (debugging aid): keep the default panic hook so that the panic message is printed
+        if std::env::var_os("C20_NOINIT").is_none() {
+            sourmash_init();
+        }
         let cmp = run_call(&f, &cls, &mut r);
         let cmp = match cmp {
             Cmp::Unknown => {
